@@ -118,7 +118,16 @@ def _nominal_and_modifiers_from_spec(modifier_set, config, spec, batch_size):
     helper = {}
     _keys_seen = set()
     for c in spec['channels']:
+        if c['name'] in helper:
+            raise exceptions.InvalidModel(
+                f"Multiple channels named {c['name']} were found."
+            )
+        helper[c['name']] = {}
         for s in c['samples']:
+            if s['name'] in helper[c['name']]:
+                raise exceptions.InvalidModel(
+                    f"Multiple samples named {s['name']} were found in {c['name']} channel."
+                )
             moddict = {}
             for x in s['modifiers']:
                 if x['type'] not in modifier_set:
@@ -126,16 +135,19 @@ def _nominal_and_modifiers_from_spec(modifier_set, config, spec, batch_size):
                         f'{x["type"]} not among {list(modifier_set)}'
                     )
                 key = f"{x['type']}/{x['name']}"
+                # a sample can carry a given modifier only once
+                if key in moddict:
+                    raise exceptions.InvalidModel(
+                        f"Multiple {key} modifiers were found on {s['name']} sample in {c['name']} channel."
+                    )
                 # check if the modifier to be built is allowed to be shared
-                if not modifiers_builders[x['type']].is_shared and (
-                    key in _keys_seen or key in moddict
-                ):
+                if not modifiers_builders[x['type']].is_shared and key in _keys_seen:
                     raise exceptions.InvalidModel(
                         f"Trying to add paramset {key} on {s['name']} sample in {c['name']} channel but other paramsets exist with the same name."
                     )
 
                 moddict[key] = x
-            helper.setdefault(c['name'], {})[s['name']] = (s, moddict)
+            helper[c['name']][s['name']] = (s, moddict)
             # add in all keys seen
             _keys_seen.update(moddict)
 
